@@ -1,4 +1,5 @@
 import Shisui.Permits
+import Shisui.PermitsFlow
 /-! # C16 — Transfer slots are bounded and always given back
 
 Model: `Pm` — a pool of `limit` slots (`semaphore.Weighted`), offers that hold a release-once permit (`ReleasePermit`,
@@ -26,7 +27,37 @@ theorem quiescent_full (limit : Nat) (steps : List Step)
 
 example : holding ([Step.acquire, .acquire, .exit 0 true, .again 0, .acquire].foldl step { avail := 2, offers := [] }).offers = 2 := by decide
 
+/-- the exit table: every way an outbound offer that holds a slot can end makes at least one `Release()` call -/
+theorem every_outbound_exit_releases (o : Out) : outCalls o ≠ [] := Pm.outCalls_ne_nil o
+
+/-- the exit table: every way an inbound transfer that holds a slot can end makes at least one `Release()` call -/
+theorem every_inbound_exit_releases (o : In) : inCalls o ≠ [] := Pm.inCalls_ne_nil o
+
+/-- "every slot taken for an offer is returned exactly once whatever the outcome": a path that makes one or more `Release()`
+    calls on a held permit frees exactly one slot (the deferred call after the explicit one changes nothing) -/
+theorem slot_returned_exactly_once (s : Sys) (i : Nat) (calls : List Call) (hne : calls ≠ []) (hi : i < s.offers.length)
+    (hheld : isReleased s i = false) :
+    ((stepsOfCalls i calls).foldl step s).avail = s.avail + 1 := Pm.path_returns_once s i calls hne hi hheld
+
+/-- "Once activity has ceased the full number of slots is available again", without assuming the final state: in every
+    interleaving in which each offer that took a slot later made at least one `Release()` call, all slots are free -/
+theorem quiescent_full_of_exit_table (limit : Nat) (steps : List Step)
+    (h : ∀ i, i < (run limit steps).offers.length →
+      ∃ pre c post, steps = pre ++ c :: post ∧ i < (run limit pre).offers.length ∧ callsRelease i c = true) :
+    (run limit steps).avail = limit := Pm.all_paths_release_full limit steps h
+
+/-- a released permit stays released whatever happens next -/
+theorem released_is_stable (s : Sys) (steps : List Step) (j : Nat) (h : isReleased s j = true) :
+    isReleased (steps.foldl step s) j = true := Pm.released_mono_run s steps j h
+
+example : (run 1 ([Step.acquire] ++ stepsOfCalls 0 (inCalls (.readDone true)) ++ [Step.acquire])).avail = 0 := by decide
+
 #print axioms held_le_limit
 #print axioms conservation
 #print axioms quiescent_full
+#print axioms every_outbound_exit_releases
+#print axioms every_inbound_exit_releases
+#print axioms slot_returned_exactly_once
+#print axioms quiescent_full_of_exit_table
+#print axioms released_is_stable
 end Props.C16
